@@ -17,6 +17,7 @@ VALID = [
 SHIFTED = VALID[0].replace("@goht A(s string, n int) {\n", "@goht A(s string, n int) {\n\t-# a comment line that generates nothing\n")
 
 INVALID = [
+    "package x\n\n@goht A(s string) {\n\t%p{class: \"\\q\"} not a string literal\n}\n",
     "package x\n\n@goht A(s string) {\n  %p two spaces\n}\n",
     "package x\n\n@goht A(s string) {\n\t%p{a: #{s}\n",
     "package x\n\n@goht A(s string) {\n\t%p #{s\n}\n",
